@@ -106,6 +106,31 @@ EXTENSIONS (second round; each an explicit rule, everything else still raises Tr
                np.random.shuffle(self._update_order) -- is the ORACLE HOOK  st.order := shuffle (st.shuffles) st.order;
                every other writer of an attribute must be on the declared constructor side.
 
+THIRD ROUND (each again an explicit rule)
+
+  fragments    a target with `locate` translates ONE EXPRESSION inside a function as a function of its declared free
+               locals (reading any other name fails as unknown).  The locator checks the statement shape around the
+               expression and raises otherwise (e.g. `C = [<count> / (N - m + 1.0) for x_i in x]`, `if not (<guard>):
+               raise ValueError`); facts the fragment relies on are declared and justified by the locator (`positive`:
+               temporal_distance > 0 because the guard statement precedes and the name is not re-bound).  A free local
+               whose name is a template identifier is renamed py_<name> (N -> py_N).
+  nested defs  `nested=[..]`: a closure defined directly in the enclosing function (not re-bound there); its free
+               variables must be its parameters; it can be called from fragments of the same enclosing function.
+  attributes   `attr_locals`: a method without return value that (re)builds an attribute: `self._W = np.zeros((a, b),
+               dtype=..)` -> let self_W := repeat (repeat 0 b) a;  `self._W[i, j] = e`, `self._W[i, j] += e` ->
+               bind (src_mat_upd self_W i j f) (NumPy indexing, IndexError); the result of the method is self_W.
+               `from .sibling import *` provides np when sibling.py has `import numpy as np` and no __all__.
+  expressions  P[0] / l[i] on a list of rows -> py_get;  zip(a, b) -> combine a b (loop / comprehension source);
+               max(l) -> bind (src_max_list l) (ValueError when empty);  comprehensions whose condition / element can
+               raise -> bind (src_filterm ..) / bind (src_mapm ..) (evaluated in order, first exception wins);
+               l[:-d] with d declared > 0 -> firstn (length l - d) l;
+               an array seen through its size and sum (ARRVIEW): x.size -> size_of_x, np.sum(x) -> sum_of_x (two
+               parameters); natural-number arguments (N) in arithmetic -> Z.of_N;
+               C08 idioms: np.base_repr(rule, base=k).zfill(w) -> zfill w (model's base_repr rule k) (ValueError for
+               a base outside 2..36), s[i] on the digit string -> py_get, int(ch, k) -> the model's int_base;
+               C16 idioms (symbols: any type with decidable equality): dict.fromkeys(list(s)) -> the model's keys,
+               s.count(x) -> count_occ, == on symbols -> the decision procedure.
+
 The parameter types of each target (which name is the 3x3 block, which the cell index, ...) are declared in TARGETS
 below: they are assumptions about how the library calls the function, not read from the source.
 
@@ -158,8 +183,9 @@ OPTZLIST, RULEFORM, SCHEME = 'optzlist', 'ruleform', 'scheme'
 BIT, BITS, BITINT = 'bit', 'bits', 'bitint'
 MATRIX = 'matrix'
 ARRVIEW, DIGITS, DIGIT = 'arrview', 'digits', 'digit'
+SYM, SYM2, SYMLIST, SYMLIST2 = 'sym', 'sym2', 'list:sym', 'list:sym2'
 ROWS = 'list:zlist'            # a Python list (or array) of rows
-COQ_TYPE.update({DIGITS: 'list N', DIGIT: 'N', MATRIX: 'list (list Z)', BIT: 'bool', BITS: 'list bool', BITINT: 'bool', 'list:bitint': 'list bool', OPTZLIST: 'option (list Z)', RULEFORM: 'rule_form', SCHEME: 'scheme', STATE: 'S'})
+COQ_TYPE.update({SYM: 'A', SYM2: 'B', DIGITS: 'list N', DIGIT: 'N', MATRIX: 'list (list Z)', BIT: 'bool', BITS: 'list bool', BITINT: 'bool', 'list:bitint': 'list bool', OPTZLIST: 'option (list Z)', RULEFORM: 'rule_form', SCHEME: 'scheme', STATE: 'S'})
 
 
 def elem_type(ty):
@@ -263,6 +289,105 @@ def _apen_locate_count(fn):
     return v.elt.left
 
 
+def _body(fn):
+    return [s for s in fn.body if not (isinstance(s, ast.Expr) and isinstance(s.value, ast.Constant))]
+
+
+def _assign_to(stmts, name):
+    hits = [s for s in stmts if isinstance(s, ast.Assign) and len(s.targets) == 1
+            and isinstance(s.targets[0], ast.Name) and s.targets[0].id == name]
+    if len(hits) != 1:
+        raise TranslationError('not exactly one top-level assignment to %s' % name)
+    return hits[0].value
+
+
+def _c16_symbols(fn):
+    return _assign_to(_body(fn), 'symbols')
+
+
+def _c16_count(fn):
+    v = _assign_to(_body(fn), 'symbol_probabilities')
+    # [float(<count>) / len(string) for symbol in symbols]
+    if not (isinstance(v, ast.ListComp) and len(v.generators) == 1 and not v.generators[0].ifs
+            and ast.unparse(v.generators[0].target) == 'symbol' and ast.unparse(v.generators[0].iter) == 'symbols'
+            and isinstance(v.elt, ast.BinOp) and isinstance(v.elt.op, ast.Div)
+            and ast.unparse(v.elt.right) == 'len(string)' and isinstance(v.elt.left, ast.Call)
+            and ast.unparse(v.elt.left.func) == 'float' and len(v.elt.left.args) == 1):
+        raise TranslationError('symbol_probabilities is not [float(<count>) / len(string) for symbol in symbols]')
+    return v.elt.left.args[0]
+
+
+def _c16_indicator(fn):
+    b = _body(fn)
+    if ast.unparse(_assign_to(b, 'X')) != 'list(stringX)' or ast.unparse(_assign_to(b, 'Y')) != 'list(stringY)':
+        raise TranslationError('X, Y are not list(stringX), list(stringY)')
+    loops = [s for s in b if isinstance(s, ast.For)]
+    # for x in set(X): for y in set(Y): joint_symbol_probabilities.append(np.mean(<indicator list>))
+    ok = (len(loops) == 1 and ast.unparse(loops[0].target) == 'x' and ast.unparse(loops[0].iter) == 'set(X)'
+          and len(loops[0].body) == 1 and isinstance(loops[0].body[0], ast.For)
+          and ast.unparse(loops[0].body[0].target) == 'y' and ast.unparse(loops[0].body[0].iter) == 'set(Y)'
+          and len(loops[0].body[0].body) == 1)
+    if ok:
+        st = loops[0].body[0].body[0]
+        ok = (isinstance(st, ast.Expr) and isinstance(st.value, ast.Call) and ast.unparse(st.value.func).endswith('.append')
+              and len(st.value.args) == 1 and isinstance(st.value.args[0], ast.Call)
+              and ast.unparse(st.value.args[0].func) == 'np.mean' and len(st.value.args[0].args) == 1)
+    if not ok:
+        raise TranslationError('the double loop over set(X) x set(Y) appending np.mean(<indicator list>) was not found')
+    return loops[0].body[0].body[0].value.args[0].args[0]
+
+
+def _c16_ami_parts(fn):
+    b = _body(fn)
+    if not (len(b) >= 2 and ast.unparse(b[0]).replace(' ', '') ==
+            'num_timesteps,num_cols=(cellular_automaton.shape[0],cellular_automaton.shape[1])'):
+        raise TranslationError('num_timesteps, num_cols are not the two components of the shape')
+    g = b[1]
+    if not (isinstance(g, ast.If) and not g.orelse and isinstance(g.test, ast.UnaryOp) and isinstance(g.test.op, ast.Not)
+            and len(g.body) == 1 and isinstance(g.body[0], ast.Raise) and isinstance(g.body[0].exc, ast.Call)
+            and ast.unparse(g.body[0].exc.func) == 'ValueError'):
+        raise TranslationError('the second statement is not `if not (<guard>): raise ValueError(..)`')
+    for s_ in b[2:]:
+        for n in ast.walk(s_):
+            if isinstance(n, ast.Name) and n.id == 'temporal_distance' and isinstance(n.ctx, ast.Store):
+                raise TranslationError('temporal_distance is re-bound after the guard')
+    loops = [s_ for s_ in b[2:] if isinstance(s_, ast.For)]
+    if len(loops) != 1:
+        raise TranslationError('not exactly one loop after the guard')
+    mi = _assign_to(loops[0].body, 'mi')
+    if not (isinstance(mi, ast.Call) and ast.unparse(mi.func) == 'mutual_information' and len(mi.args) == 2):
+        raise TranslationError('mi is not mutual_information(<left>, <right>)')
+    return g.test.operand, mi.args[0], mi.args[1]
+
+
+def _c16_ami_guard(fn):
+    g = _c16_ami_parts(fn)[0]
+    # the guard must bound temporal_distance from below by 0 (this is what licenses [:-temporal_distance] below)
+    def lower_bound(c):
+        return isinstance(c, ast.Compare) and (
+            (ast.unparse(c.left) == '0' and isinstance(c.ops[0], ast.Lt)
+             and ast.unparse(c.comparators[0]) == 'temporal_distance') or
+            (len(c.ops) == 1 and ast.unparse(c.left) == 'temporal_distance' and isinstance(c.ops[0], ast.Gt)
+             and ast.unparse(c.comparators[0]) == '0'))
+    if not (lower_bound(g) or (isinstance(g, ast.BoolOp) and isinstance(g.op, ast.And)
+                               and any(lower_bound(v) for v in g.values))):
+        raise TranslationError('the guard does not contain the conjunct `0 < temporal_distance`')
+    return g
+
+
+def _c16_ami_left(fn):
+    _c16_ami_guard(fn)
+    return _c16_ami_parts(fn)[1]
+
+
+def _c16_ami_right(fn):
+    _c16_ami_guard(fn)
+    return _c16_ami_parts(fn)[2]
+
+
+_SYMG = '{A : Type} (sym_dec : forall a b : A, {a = b} + {a <> b})'
+_SYMG2 = _SYMG + ' {B : Type} (sym2_dec : forall a b : B, {a = b} + {a <> b})'
+
 TARGETS = [
     dict(name='game_of_life_rule', prop='C11', file='ca_functions2d.py', cls=None, func='game_of_life_rule',
          params=[('neighbourhood', NBHD), ('c', UNUSED), ('t', UNUSED)], attrs=[]),
@@ -307,6 +432,26 @@ TARGETS = [
     dict(name='apen_count', prop='C19', file='apen.py', cls=None, func='apen', nested=['phi'],
          locate=_apen_locate_count, what='<count> of C = [<count> / (N - m + 1.0) for x_i in x]',
          free=[('x', GRID2), ('x_i', ZLIST), ('r', Z)], params=[], attrs=[], effects=True),
+    dict(name='shannon_symbols', prop='C16', file='entropy.py', cls=None, func='shannon_entropy',
+         locate=_c16_symbols, what='assigned to symbols', free=[('string', SYMLIST)], generic=_SYMG,
+         params=[], attrs=[]),
+    dict(name='shannon_count', prop='C16', file='entropy.py', cls=None, func='shannon_entropy',
+         locate=_c16_count, what='<count> of [float(<count>) / len(string) for symbol in symbols]',
+         free=[('string', SYMLIST), ('symbol', SYM)], generic=_SYMG, params=[], attrs=[]),
+    dict(name='joint_indicator', prop='C16', file='entropy.py', cls=None, func='joint_shannon_entropy',
+         locate=_c16_indicator, what='<l> of np.mean(<l>) in the double loop over set(X) x set(Y)',
+         free=[('X', SYMLIST), ('Y', SYMLIST2), ('x', SYM), ('y', SYM2)], generic=_SYMG2, params=[], attrs=[]),
+    dict(name='ami_guard', prop='C16', file='entropy.py', cls=None, func='average_mutual_information',
+         locate=_c16_ami_guard, what='<g> of `if not (<g>): raise ValueError`',
+         free=[('temporal_distance', Z), ('num_timesteps', Z)], params=[], attrs=[]),
+    dict(name='ami_left', prop='C16', file='entropy.py', cls=None, func='average_mutual_information',
+         locate=_c16_ami_left, what='first argument of mutual_information(..)', generic='{A : Type}',
+         free=[('cell_states_over_time', SYMLIST), ('temporal_distance', Z)], positive=['temporal_distance'],
+         pylists=['cell_states_over_time'], params=[], attrs=[]),
+    dict(name='ami_right', prop='C16', file='entropy.py', cls=None, func='average_mutual_information',
+         locate=_c16_ami_right, what='second argument of mutual_information(..)', generic='{A : Type}',
+         free=[('cell_states_over_time', SYMLIST), ('temporal_distance', Z)], positive=['temporal_distance'],
+         pylists=['cell_states_over_time'], params=[], attrs=[]),
     dict(name='hopfield_train', prop='C20', file='hopfield_net.py', cls='HopfieldNet', func='train',
          params=[('P', ROWS)], attrs=[], effects=True, attr_locals={'_W': MATRIX}),
     dict(name='hopfield_rule', prop='C20', file='hopfield_net.py', cls='HopfieldNet', func='_rule',
@@ -512,6 +657,7 @@ class Env:
         self.nonneg = set()           # int locals known to be >= 0 (indices of range / enumerate)
         self.pylists = set()          # locals bound to Python lists (not ndarrays)
         self.loop_acc = None          # inside a loop translated with src_for: the text of its accumulator
+        self.positive = set()         # int locals known to be > 0 (a guard before the fragment raises otherwise)
         self.alias = {}               # free locals of a fragment whose Python name is not usable in Coq: name -> py_name
 
     def copy(self):
@@ -524,6 +670,7 @@ class Env:
         e.pylists = set(self.pylists)
         e.loop_acc = self.loop_acc
         e.alias = self.alias
+        e.positive = set(self.positive)
         return e
 
 
@@ -814,6 +961,10 @@ class FunTrans:
         parts = []
         for i, op in enumerate(e.ops):
             (a, ta), (b, tb) = texts[i], texts[i + 1]
+            if ta == tb and ta in (SYM, SYM2) and isinstance(op, (ast.Eq, ast.NotEq)):
+                t = '(if %s %s %s then true else false)' % ('sym_dec' if ta == SYM else 'sym2_dec', a, b)
+                parts.append(t if isinstance(op, ast.Eq) else '(negb %s)' % t)
+                continue
             if ta == ACELL and tb == ACELL and isinstance(op, (ast.Eq, ast.NotEq)):
                 t = '(cell_eqb %s %s)' % (a, b)
                 parts.append(t if isinstance(op, ast.Eq) else '(negb %s)' % t)
@@ -855,6 +1006,11 @@ class FunTrans:
         if sl.lower is None and isinstance(sl.upper, ast.UnaryOp) and isinstance(sl.upper.op, ast.USub) \
                 and _is_int_const(sl.upper.operand) and sl.upper.operand.value == 1:
             return '(removelast %s)' % l, rty
+        # l[:-d] with d a local known to be > 0: everything but the last d elements (nothing when d >= len)
+        if sl.lower is None and isinstance(sl.upper, ast.UnaryOp) and isinstance(sl.upper.op, ast.USub) \
+                and isinstance(sl.upper.operand, ast.Name) and sl.upper.operand.id in env.positive \
+                and env.vars.get(sl.upper.operand.id) == Z:
+            return '(firstn (length %s - Z.to_nat %s)%%nat %s)' % (l, sl.upper.operand.id, l), rty
         for b in (sl.lower, sl.upper):
             if b is not None and not self.is_nonneg(b, env):
                 _err(e, 'slice bound that is not known to be >= 0 (negative bounds count from the end)')
@@ -1138,6 +1294,20 @@ class FunTrans:
             if {ta, tb} <= {ZLIST, ZVEC}:
                 return '(dot %s %s)' % (a, b), Z
             _err(e, '.dot on (%s, %s)' % (ta, tb))
+        # dict.fromkeys(list(s)): the distinct symbols of s, first occurrence first (the model's keys)
+        if ast.unparse(f) == 'dict.fromkeys' and len(e.args) == 1 and isinstance(e.args[0], ast.Call) \
+                and isinstance(e.args[0].func, ast.Name) and e.args[0].func.id == 'list' and len(e.args[0].args) == 1:
+            l, tl = self.expr(e.args[0].args[0], env)
+            if tl == SYMLIST:
+                return '(keys sym_dec %s)' % l, SYMLIST
+            _err(e, 'dict.fromkeys(list(..)) of a value of type %s' % tl)
+        # s.count(x) on a list of symbols
+        if isinstance(f, ast.Attribute) and f.attr == 'count' and len(e.args) == 1:
+            l, tl = self.expr(f.value, env)
+            x, tx = self.expr(e.args[0], env)
+            if tl == SYMLIST and tx == SYM:
+                return '(Z.of_nat (count_occ sym_dec %s %s))' % (l, x), Z
+            _err(e, '.count on (%s, %s)' % (tl, tx))
         # int(ch) on a character of a binary string: the bit
         if isinstance(f, ast.Name) and f.id == 'int' and len(e.args) == 1 and not e.keywords:
             a, ta = self.expr(e.args[0], env)
@@ -2047,14 +2217,15 @@ def translate_fragment(mod, target):
         env.vars[p] = ty
         if ty == ROWS or p in target.get('pylists', []):
             env.pylists.add(p)
-    env.nonneg = set(target.get('nonneg', []))
+    env.nonneg = set(target.get('nonneg', [])) | set(target.get('positive', []))
+    env.positive = set(target.get('positive', []))
     tx, ty = ft.expr(node, env)
     body = ft.wrap_binds(env, ft.ret(ty, tx))
     body, cty = ft.finish(body, node)
     mod.results[target['name']] = (ft.rty, ft.effects)
     return [dict(name=target['name'], params=[(env.alias.get(p, p), ty) for p, ty in target['free']], attrs=[],
                  body=body, cty=cty,
-                 lo=node.lineno, hi=node.end_lineno, generic='', stateful=False,
+                 lo=node.lineno, hi=node.end_lineno, generic=target.get('generic', ''), stateful=False,
                  what='%s, the expression %s' % ('.'.join([target['func']] + target.get('nested', [])), target['what']))]
 
 
@@ -2279,7 +2450,8 @@ HEADER = ('(* GENERATED by harness/translate.py from the Python source of the ce
           'Import ListNotations.\nLocal Open Scope Z_scope.\n')
 
 
-PROP_IMPORTS = {'C08': 'From CPL Require Import Model.Totalistic.\n'}
+PROP_IMPORTS = {'C08': 'From CPL Require Import Model.Totalistic.\n',
+                'C16': 'From CPL Require Import Model.EntropyExact.\n'}
 
 
 def build(only=None):
@@ -2366,6 +2538,8 @@ PROP_FUNS = {
     'C07': ['src_bits_to_int', 'src_int_to_bits', 'src_binary_rule'],
     'C18': ['src_binary_derivative', 'src_cyclic_binary_derivative'],
     'C08': ['src_totalistic_rule', 'src_totalistic_rule_call'],
+    'C16': ['src_shannon_symbols', 'src_shannon_count', 'src_joint_indicator', 'src_ami_guard', 'src_ami_left',
+            'src_ami_right'],
     'C19': ['src_apen_maximum_distance', 'src_apen_windows', 'src_apen_count'],
     'C20': ['src_hopfield_rule', 'src_hopfield_train'],
     'C12': ['src_async_call', 'src_async_current_cell_value_1d', 'src_async_current_cell_value_2d'],
@@ -2411,6 +2585,8 @@ def _stash_save(pid):
     os.makedirs(d, exist_ok=True)
     for rel in _stash_files(pid):
         shutil.copy2(os.path.join(COQ, rel), os.path.join(d, rel.replace('/', '__')))
+    # the .vo files are only valid against the template helpers they were compiled with
+    open(os.path.join(d, 'prelude_sha'), 'w').write(hashlib.sha256(PRELUDE.encode()).hexdigest())
 
 
 def _stash_current(pid):
@@ -2432,6 +2608,11 @@ def _stash_restore(pid):
     d = _stash_dir(pid)
     rels = _stash_files(pid)
     if not all(os.path.exists(os.path.join(d, r.replace('/', '__'))) for r in rels):
+        return
+    try:
+        if open(os.path.join(d, 'prelude_sha')).read() != hashlib.sha256(PRELUDE.encode()).hexdigest():
+            return            # stashed against other template helpers: restoring would leave inconsistent .vo files
+    except OSError:
         return
     from harness import driver
     lk = driver._lock()
